@@ -16,7 +16,7 @@ Definition C04_faithful_or_refuses_full_statement : Prop :=
 
 (* With the explicit decidable guard c04_ok (coq/io/CodecGuards.v: no scalar-subclass instance, no uncoercible dict
    key (keys with the same JSON spelling are refused by the dump, see C04_same_spelling_refused), no property-valued entry, defaultdict/tuple of exact class, no hidden payload on the
-   object path, object arrays of rank 1 or with non-sequence cells, ...), on the fragment proved by induction
+   object path, ...; object arrays of EVERY rank with cells of any kind are inside: D10 repaired), on the fragment proved by induction
    (see C05_roundtrip_partial for its description and for what is missing): the loaded value is v itself.
    On every generated value with c04_ok the model (by vm_compute) and the implementation are checked to be
    faithful-or-refusing in each run (harness/props/c04.py). *)
@@ -49,20 +49,18 @@ Theorem C04_frozenset_refuted : corrupts w_frozenset.                      (* D0
 Proof. vm_compute. reflexivity. Qed.
 Theorem C04_deque_refuted : corrupts w_deque.                              (* D09  deque([1,2]) -> deque([]) *)
 Proof. vm_compute. reflexivity. Qed.
-Theorem C04_objarray_refuted : corrupts w_objarr_seq.                      (* D10  shape (2,2) of lists -> (2,2,2) *)
-Proof. vm_compute. reflexivity. Qed.
 Theorem C04_property_value_refuted : corrupts w_property_value.            (* D26  {'a': property, 'b': 2} -> {'b': 2} *)
 Proof. vm_compute. reflexivity. Qed.
 Theorem C04_scalar_subclass_refuted : corrupts w_myint /\ corrupts w_mystr.  (* MyInt(5) -> 5, MyStr('s') -> 's' *)
 Proof. split; vm_compute; reflexivity. Qed.
 Theorem C04_surrogates_refuted : corrupts w_surrogates.                    (* '😀' (2 code points) -> 1 code point *)
 Proof. vm_compute. reflexivity. Qed.
-Print Assumptions C04_objarray_refuted.
+Print Assumptions C04_frozenset_refuted.
 
 (* the guard excludes every witness *)
 Theorem C04_guard_excludes_witnesses :
   forallb (fun w => negb (c04_ok wf w))
-    [w_frozenset; w_deque; w_objarr_seq; w_property_value; w_myint; w_mystr;
+    [w_frozenset; w_deque; w_property_value; w_myint; w_mystr;
      w_surrogates] = true.
 Proof. vm_compute. reflexivity. Qed.
 
@@ -105,6 +103,19 @@ Proof.
   split; [vm_compute; reflexivity|]. split; [apply in_here|].
   exists w_colliding_keys. split; [vm_compute; reflexivity|]. eapply in_seq; [right; left; reflexivity|apply in_here].
 Qed.
+
+(* D10 (and the rank-0 part, C13-F1), fixed in the repository (fix: object arrays of every rank keep their shape): the loader
+   no longer rebuilds the array with np.array(nested lists) -- which turned cells that are lists / tuples into further axes:
+   the former witness, shape (2,2) of lists, came back with shape (2,2,2) -- but fills np.empty(shape) cell by cell from the
+   lists tolist() wrote; a rank-0 array is dumped as a one-element list around its cell.  The former witness and the other
+   shapes of the defect (a rank-0 array holding a list / the empty tuple, tuples in a (1,2,1) array, arrays with a zero-length
+   axis, an object array nested in an object array) load as themselves, identity labels included; the guard no longer
+   excludes them *)
+Example C04_objarray_fixed :
+  rt w_objarr_seq = Ok w_objarr_seq /\ c04_ok wf w_objarr_seq = true
+  /\ forallb (fun w => match rt w with Ok v' => pval_eqb v' w | Raise _ => false end) w_objarr_more = true
+  /\ forallb (c04_ok wf) w_objarr_more = true.
+Proof. repeat split; vm_compute; reflexivity. Qed.
 
 (* D07, fixed in the repository (fix: dict with bool keys ...): {False:'x', True:'y'} now loads as itself *)
 Theorem C04_bool_keys_fixed : rt w_bool_keys = Ok w_bool_keys /\ c04_ok wf w_bool_keys = true.
